@@ -355,7 +355,72 @@ mod real {
             s
         }
 
-        fn input(&mut self, lang: &str, suffix: &str) -> String {
+        /// A line RIGHT AT the boundary of what the reader takes as a delimiter: a run of `-` or `=` whose length is
+        /// just below / equal to / just above the test's real divider resp. header length, followed by something
+        /// suffix-like: blanks, tabs, a lone CR, Unicode white space, the file's suffix with blanks around it, a
+        /// prefix or an extension of the suffix, other text.  Whether such a line is a body line or a delimiter is
+        /// exactly what `BodyLineOK`/`SimpleS` say; the model and the real reader must agree on each of them.
+        fn near_delim(&mut self, suffix: &str, dlen: usize, hlen: usize) -> String {
+            let dash = self.rng.chance(3, 4);
+            let (c, reference) = if dash { ('-', dlen) } else { ('=', hlen) };
+            let n = match self.rng.below(8) {
+                0 => reference.saturating_sub(1).max(1),
+                1 | 2 => reference,
+                3 | 4 => reference + 1,
+                5 => reference + self.rng.range(2, 5),
+                6 => 3,
+                _ => 2,
+            };
+            let mut s: String = std::iter::repeat(c).take(n).collect();
+            let ws = *self.rng.pick(&[" ", "  ", "\t", " \t ", "\r", "\u{a0}", "\u{2003}", "\u{b}", "\u{c}"]);
+            // an `=` line with a non-empty foreign suffix in an unsuffixed file changes the suffix of the WHOLE file
+            // (usually 0 tests afterwards): legitimate, but keep it rare
+            let eq_guard = dash || !suffix.is_empty() || self.rng.chance(1, 5);
+            let k = self.rng.below(12);
+            match k {
+                0 | 1 | 2 if eq_guard => s.push_str(ws),
+                3 => {
+                    s.push_str(suffix);
+                    if eq_guard {
+                        s.push_str(ws);
+                    }
+                }
+                4 if eq_guard => {
+                    s.push_str(ws);
+                    s.push_str(suffix);
+                }
+                5 if eq_guard => {
+                    // proper prefix of the suffix / of the suffix's characters
+                    let cs: Vec<char> = suffix.chars().collect();
+                    if cs.len() > 1 {
+                        s.extend(cs[..cs.len() - 1].iter());
+                    } else {
+                        s.push_str(ws);
+                        s.push_str(ws);
+                    }
+                }
+                6 if eq_guard => {
+                    s.push_str(suffix);
+                    s.push('x');
+                }
+                7 if eq_guard => {
+                    s.push_str(suffix);
+                    s.push_str(suffix);
+                }
+                8 if eq_guard => {
+                    s.insert_str(0, ws);
+                }
+                9 if eq_guard => {
+                    s.push(if dash { '=' } else { '-' });
+                    s.push_str(suffix);
+                }
+                10 => s.push_str(suffix),
+                _ => {}
+            }
+            s
+        }
+
+        fn input(&mut self, lang: &str, suffix: &str, dlen: usize, hlen: usize) -> String {
             let mut s = String::new();
             let parts = self.rng.range(1, 3);
             for k in 0..parts {
@@ -376,6 +441,17 @@ mod real {
                     s.push('\n');
                     s.push_str(&self.delim_like(suffix));
                 }
+                if self.rng.chance(1, 5) {
+                    // in front of, between, or behind the parts
+                    let l = self.near_delim(suffix, dlen, hlen);
+                    if self.rng.chance(1, 4) {
+                        s.insert(0, '\n');
+                        s.insert_str(0, &l);
+                    } else {
+                        s.push('\n');
+                        s.push_str(&l);
+                    }
+                }
             }
             match self.rng.below(8) {
                 0 => s.push('\n'),
@@ -386,7 +462,24 @@ mod real {
             s
         }
 
-        fn expectation(&mut self, lang: &str, input: &str, cst: bool) -> String {
+        fn expectation(&mut self, lang: &str, input: &str, cst: bool, suffix: &str, dlen: usize, hlen: usize) -> String {
+            let e = self.expectation0(lang, input, cst);
+            if !self.rng.chance(1, 8) {
+                return e;
+            }
+            // a near-delimiter line inside / behind the expectation (comment-like rules, leftovers of an editor)
+            let l = self.near_delim(suffix, dlen, hlen);
+            match self.rng.below(3) {
+                0 => format!("{l}\n{e}"),
+                1 => format!("{e}\n{l}"),
+                _ => match e.find('\n') {
+                    Some(i) => format!("{}\n{l}{}", &e[..i], &e[i..]),
+                    None => format!("{e}\n{l}\n"),
+                },
+            }
+        }
+
+        fn expectation0(&mut self, lang: &str, input: &str, cst: bool) -> String {
             let act = self.world.actual(lang, input.as_bytes());
             let (sf, sp, c, _) = act.unwrap_or_default();
             if cst {
@@ -473,8 +566,8 @@ mod real {
                         attrs.push(a.to_string());
                     }
                 }
-                let input = self.input(&lang, &suffix);
-                let expected = self.expectation(&lang, &input, cst);
+                let input = self.input(&lang, &suffix, dlen, hlen);
+                let expected = self.expectation(&lang, &input, cst, &suffix, dlen, hlen);
                 f.push_str(&"=".repeat(hlen));
                 f.push_str(&suffix);
                 f.push('\n');
